@@ -65,6 +65,11 @@ func newCompressionPool(
 	newDecompressor func() Decompressor,
 	newCompressor func() Compressor,
 ) *compressionPool {
+	if newDecompressor == nil || newCompressor == nil {
+		// Documented as a no-op by WithCompression and WithAcceptCompression: the
+		// options skip a nil pool.
+		return nil
+	}
 	return &compressionPool{
 		decompressors: sync.Pool{
 			New: func() any { return newDecompressor() },
